@@ -5,7 +5,7 @@
 (* is reported (MISMATCH line) and validation continues with the state      *)
 (* advanced from what the implementation really did.                        *)
 (***************************************************************************)
-EXTENDS Import, Strings, Pem, KeyLife, PathValidation, Cli, Purity, TLC, Json, IOUtils
+EXTENDS Import, Strings, Pem, KeyLife, PathValidation, Cli, Purity, Outcome, TLC, Json, IOUtils
 
 Rec == ndJsonDeserialize(IOEnv.TRACE)
 
@@ -15,7 +15,8 @@ VARIABLES l, nmis,
           reg        \* C15/C16: write-once registers, generation call -> digest of its to-be-signed bytes
 tvars == <<l, nmis, names, cov, reg>>
 
-ReqCommon(ev) == { <<"C10.no_panic", ev.out # "Panic">>, <<"C10.no_timeout", ev.out # "Timeout">> }
+(* evaluated on every event of every trace; the C10 matrix events carry their own clause (documented panics) *)
+ReqCommon(ev) == IF ev.op = "Call" THEN {} ELSE { <<"C10.no_panic", ev.out # "Panic">>, <<"C10.no_timeout", ev.out # "Timeout">> }
 
 (* a certificate request that the property obliges rcgen to honour: the sweeps only produce encodable *)
 (* parameter sets; the crypto-less build legitimately refuses an automatic serial                      *)
@@ -93,6 +94,8 @@ ReqKeyEv(ev) ==
 CovOf(ev) ==
   CASE ev.op = "Pem" /\ ev.out = "Ok" -> { <<"pem", ev.args.kind, ev.args.derLen % 48>>, <<"pemalg", ev.args.kind, ev.args.alg>> }
     [] ev.op = "Gen" /\ ev.out = "Ok" -> { <<"gen", ev.be, ev.args.regKey>>, <<"genphase", ev.args.phase>> }
+    [] ev.op = "Call" /\ <<ev.args.fn, ev.args.class>> \in GenCells \cup DocCells -> { <<"call", ev.args.fn, ev.args.class>> }
+    [] ev.op = "Sweep" /\ <<ev.args.fn, ev.args.class>> \in ParseCells -> { <<"sweep", ev.args.fn, ev.args.class>> }
     [] ev.op = "Build" -> { <<"build", ev.args.what, ev.args.backend, ev.args.pem, ev.args.x509parser, ev.args.zeroize>> }
     [] OTHER -> {}
 PemResiduesCovered == \A k \in {"cert", "csr", "crl"} : \A r \in 0..47 : <<"pem", k, r>> \in cov
@@ -134,6 +137,8 @@ ReqOf(ev) ==
           { <<"C12.verdict_eq", Covered(ev.args.validator, ev.args) =>
                                   ev.obs.accept = Verdict(ev.args.chain, ev.args.day, ev.args.purpose)>> }
      [] ev.op = "Gen" -> (IF ev.out = "Ok" THEN ReqGen(reg, ev.be, ev.args, ev.obs) ELSE {<<"C15.generation_succeeds", FALSE>>})
+     [] ev.op = "Call" -> ReqCall(ev.args, ev.out)
+     [] ev.op = "Sweep" -> ReqSweep(ev.args, ev.obs)
      [] ev.op = "Build" -> { <<"C16.feature_combination_builds", ev.obs.ok>> }
      [] ev.op = "KeyXfer" ->
           { <<"C16.exported_key_loads_in_other_back_end",
@@ -169,6 +174,8 @@ Step == /\ l <= Len(Rec)
 Done == /\ l = Len(Rec) + 1
         /\ PrintT("FINAL|" \o ToString(Len(Rec)) \o "|" \o ToString(nmis) \o "|pemResidues=" \o ToString(PemResiduesCovered)
                   \o ";covTokens=" \o ToString(Cardinality(cov))
+                  \o ";matrixCellsMissing=" \o ToString(Cardinality({c \in GenCells \cup DocCells : <<"call", c[1], c[2]>> \notin cov}))
+                  \o ";parserCellsMissing=" \o ToString(Cardinality({c \in ParseCells : <<"sweep", c[1], c[2]>> \notin cov}))
                   \o ";featureSets=" \o ToString(Cardinality({y \in cov : y[1] = "build" /\ y[2] = "rcgen"}))
                   \o ";genBackends=" \o ToString(Cardinality({x[2] : x \in {y \in cov : y[1] = "gen"}}))
                   \o ";registers=" \o ToString(Cardinality(DOMAIN reg)))
